@@ -104,3 +104,20 @@ pub fn get_bools(v: &Value, k: &str) -> Vec<bool> {
         })
         .collect()
 }
+
+/// Copies `bytes` into a leaked buffer whose start is 16-byte aligned
+/// (`off8 = false`) or 8 modulo 16 (`off8 = true`). ε-serde only requires the
+/// natural alignment of the data (8 bytes for word arrays), so both placements
+/// are legitimate inputs of `deserialize_eps`; loading from both guarantees that
+/// one of them puts every array on the "odd" 8-mod-16 alignment that freshly
+/// allocated backends never have (C15).
+pub fn leak_aligned(bytes: &[u8], off8: bool) -> &'static [u8] {
+    let off = if off8 { 8 } else { 0 };
+    let words = (bytes.len() + off).div_ceil(16) + 1;
+    let buf: &'static mut [u128] = Box::leak(vec![0u128; words].into_boxed_slice());
+    let base = buf.as_mut_ptr() as *mut u8;
+    unsafe {
+        std::ptr::copy_nonoverlapping(bytes.as_ptr(), base.add(off), bytes.len());
+        std::slice::from_raw_parts(base.add(off), bytes.len())
+    }
+}
